@@ -56,7 +56,11 @@ atom("o_ipbad", "origins", "malformed", ["http://[0:0:0:0:0:0:0:0001]:9090", "ht
                                         "http://192.168.0x1:9090", "http://10.0.0.0xa:*", "http://127.1", "http://2130706433", "http://0177.0.0.1", "http://0x7f.0.0.1", "http://1.2.3", "http://[::1", "http://::1]", "http://[[::1]]"], reasons=bad)
 atom("o_wildbad", "origins", "malformed", ["https://*example.com", "https://foo.*.com", "https://*.*.example.com", "http://*.127.0.0.1", "https://*",
                                           "https://**.example.com", "https://*.", "http://*.[::1]", "https://ex*mple.com"], reasons=bad)
-atom("o_long", "origins", "malformed", ["https://" + "a" * 64 + ".com", "https://" + ".".join(["a" * 63] * 4) + ".toolong",
+atom("o_long", "origins", "malformed", ["https://" + "a" * 64 + ".com", "https://example." + "a" * 64, "https://" + "a" * 64, "http://*.example." + "b" * 64 + ":8080",
+                                       # hyphens at the edge of the FINAL label, of a middle label, of the only label
+                                       "https://example.com-", "https://example.-com", "https://foo-", "https://-foo", "https://a.b-.example", "https://*.example.com-",
+                                       # defects far beyond every buffer: the error must still name the whole string
+                                       "https://example.com/" + "p" * 1500, "https://" + ".".join(["c" * 60] * 20) + ".example", "https://example.com:" + "9" * 1200, "https://" + ".".join(["a" * 63] * 4) + ".toolong",
                                        "x" * 65 + "://example.com", "https://*." + ".".join(["b" * 62] * 4) + "c"], reasons=bad)
 atom("o_junk", "origins", "malformed", ["", "://", "https//example.com", "https:/example.com", "https:example.com", "example.com", "1ttp://example.com",
                                        "\u0000", "https://", "https://.example.com", "https://example..com", "https://exa\u0000mple.com"], reasons=bad)
@@ -72,7 +76,9 @@ atom("m_invalid", "methods", "bad", ["", "résumé", "a b", "GET,POST", "(", "PU
 # ------------------------------------------------------------------ request headers
 atom("h_star", "reqh", "star", ["*"])
 atom("h_auth", "reqh", "auth", ["Authorization", "authorization", "AUTHORIZATION", "aUtHoRiZaTiOn"])
-atom("h_plain", "reqh", "valid", ["X-Foo", "content-type", "X-Requested-With", "x-a", "ACCEPT", "If-None-Match"])
+atom("h_plain", "reqh", "valid", ["X-Foo", "content-type", "X-Requested-With", "x-a", "ACCEPT", "If-None-Match",
+                                   # names that merely LOOK forbidden / prohibited: bare prefixes without the hyphen, extensions of forbidden names
+                                   "Sec", "Proxy", "sec", "PROXY", "Secure", "Proxies", "Cookies", "Hosts", "Access-Control", "Origins"])
 atom("h_forbidden", "reqh", "bad", ["Cookie", "cookie", "Host", "Sec-Fetch-Mode", "Proxy-Authorization", "proxy-foo", "sec-x", "Origin", "Content-Length",
                                    "Access-Control-Request-Method", "access-control-request-headers", "Access-Control-Request-Private-Network", "DNT",
                                    "Accept-Encoding", "TE", "Via", "SEC-", "Proxy-"], reasons=["forbidden"])
